@@ -276,3 +276,4 @@ MANIFEST = {
     'note': 'Trusted: the blocking-pair definition as transcribed in refmodel.Oracle.blocking_pairs; '
             'enumerating back end (cross-checked against CBC in the thorough tier).',
 }
+MANIFEST['text'] += (' ' + '12% of the cases embed a tiny instance under sparse two- and three-digit ids (stable set enumerated on the tiny instance, real CBC on the big file) and 8% are large instances where the printed matching must be valid and unblocked.')
